@@ -35,7 +35,7 @@ class BoolTree(Space):
         bits = [bool(b) for b in case]
         n = len(bits)
         outs = []
-        ms = list(range(0, n + 2)) + [1.5, 2.5]
+        ms = list(range(0, n + 2)) + [1.5, 2.5, np.uint8(0), np.int64(2), np.float32(1.5)]
         for m in ms:
             arr = np.array(bits, dtype=bool)
             got = check_min_burst_cycles(arr.copy(), min_n_cycles=m)
@@ -51,6 +51,18 @@ class BoolTree(Space):
             if [bool(x) for x in mir][::-1] != exp:
                 return VIOL({'kind': 'mirror', 'bits': case, 'm': m}, 'f(x[::-1]) != f(x)[::-1]',
                             expected=exp, observed=np.asarray(mir).tolist()[::-1], evals=len(ms))
+            # the same values handed in as non-contiguous views (strided, reversed, column of a 2-D array)
+            big = np.zeros(2 * n + 1, dtype=bool)
+            big[::2][:n] = bits
+            col = np.zeros((n, 3), dtype=bool)
+            col[:, 1] = bits
+            rev = np.array(bits[::-1], dtype=bool)
+            for name, view in (('strided', big[::2][:n]), ('column', col[:, 1]), ('reversed', rev[::-1])):
+                got = check_min_burst_cycles(view, min_n_cycles=m)
+                if [bool(x) for x in got] != exp:
+                    return VIOL({'kind': 'layout', 'layout': name, 'bits': case, 'm': m},
+                                'result differs for a %s view of the same values' % name, expected=exp,
+                                observed=np.asarray(got).tolist(), evals=len(ms))
             outs.append(tuple(exp))
         lens = {e - s for s, e in runs(bits)}
         return OK(outcome=(tuple(bits), tuple(outs)), nontrivial=len(lens) >= 2, evals=len(ms) * 3,
